@@ -33,18 +33,23 @@ const (
 	stExtRemine  c15Step = "ext+remine"         // connect a block confirming every wallet tx that a reorg made unconfirmed
 	stDisc       c15Step = "disc"               // disconnect the tip
 	stDupDisc    c15Step = "dup-disc"           // repeat the last disconnect notification
+	stDupOlder   c15Step = "dup-disc-older"     // repeat the disconnect notification of the block disconnected before the last one
 	stStaleAbove c15Step = "stale-disc-above"   // disconnect notification for a block above the tip the wallet never had
 	stStaleSib   c15Step = "stale-disc-sibling" // disconnect notification for a sibling of the tip (same height, other hash)
 	stRestart    c15Step = "restart"            // stop, reopen, re-attach, rescan (no chain change)
 	stOffline1   c15Step = "offline-extend"     // stopped; chain grows by one block with a wallet tx; restart
 	stOfflineRe1 c15Step = "offline-reorg1"     // stopped; tip replaced by 2 new blocks; restart
 	stOfflineRe2 c15Step = "offline-reorg2"     // stopped; 2 blocks replaced by 3 new ones; restart
+	stOfflineAll c15Step = "offline-reorg-all"  // stopped; every block above genesis replaced (reaches below the birthday block); restart
 )
 
 type c15Job struct {
-	Style int       `json:"notification_style"`
-	Steps []c15Step `json:"steps"`
-	Text  string    `json:"text"`
+	Style int `json:"notification_style"`
+	// Premined is the number of empty blocks that exist before the wallet's
+	// first synchronisation (the birthday block is then above genesis).
+	Premined int       `json:"premined_blocks,omitempty"`
+	Steps    []c15Step `json:"steps"`
+	Text     string    `json:"text"`
 }
 
 type c15Tx struct {
@@ -78,6 +83,12 @@ func c15Exec(worker int, j c15Job, window int, fail func(sig, msg string)) (eval
 	if err := s.Open(0); err != nil {
 		ev.Fatal("open: %v", err)
 	}
+	for i := 0; i < j.Premined; i++ {
+		c.Tip = c.NewBlock(c.Tip, "p", nil)
+		if j.Premined > 0 && i == j.Premined-1 {
+			_ = i
+		}
+	}
 	s.Attach()
 	s.ServeRescans()
 	var addrs []btcutil.Address
@@ -110,9 +121,12 @@ func c15Exec(worker int, j c15Job, window int, fail func(sig, msg string)) (eval
 		}
 		return true
 	}
+	for h := int32(1); h <= int32(j.Premined); h++ {
+		noteConnect(h)
+	}
 	var txs []*c15Tx
 	nFund, branch := 0, 0
-	var lastDisc *wsim.Block
+	var lastDisc, olderDisc *wsim.Block
 	nextBranch := func() string { branch++; return string(rune('a' + branch - 1)) }
 	fund := func() *wire.MsgTx {
 		nFund++
@@ -268,6 +282,7 @@ func c15Exec(worker int, j c15Job, window int, fail func(sig, msg string)) (eval
 				applied = false
 				break
 			}
+			olderDisc = lastDisc
 			lastDisc = s.Disconnect()
 		case stDupDisc:
 			if lastDisc == nil {
@@ -275,6 +290,12 @@ func c15Exec(worker int, j c15Job, window int, fail func(sig, msg string)) (eval
 				break
 			}
 			s.NotifyDisconnected(lastDisc)
+		case stDupOlder:
+			if olderDisc == nil {
+				applied = false
+				break
+			}
+			s.NotifyDisconnected(olderDisc)
 		case stStaleAbove:
 			b := c.NewBlock(c.Tip, nextBranch()+"-never-connected", nil)
 			s.NotifyDisconnected(b)
@@ -291,8 +312,12 @@ func c15Exec(worker int, j c15Job, window int, fail func(sig, msg string)) (eval
 				break
 			}
 			restart()
-		case stOffline1, stOfflineRe1, stOfflineRe2:
-			drop := map[c15Step]int{stOffline1: 0, stOfflineRe1: 1, stOfflineRe2: 2}[step]
+		case stOffline1, stOfflineRe1, stOfflineRe2, stOfflineAll:
+			drop := map[c15Step]int{stOffline1: 0, stOfflineRe1: 1, stOfflineRe2: 2, stOfflineAll: int(c.Tip.Height)}[step]
+			if step == stOfflineAll && drop < 3 {
+				applied = false // covered by offline-reorg1/2
+				break
+			}
 			if int(c.Tip.Height) < drop || !canWalkBack(c.Tip.Height, drop) {
 				applied = false
 				break
@@ -369,8 +394,8 @@ func runC15(args []string) {
 		run.Finish(cov)
 		return
 	}
-	online := []c15Step{stExtEmpty, stExtFund, stExtSpend, stExtRemine, stDisc, stDupDisc, stStaleAbove, stStaleSib}
-	offline := []c15Step{stRestart, stOffline1, stOfflineRe1, stOfflineRe2}
+	online := []c15Step{stExtEmpty, stExtFund, stExtSpend, stExtRemine, stDisc, stDupDisc, stDupOlder, stStaleAbove, stStaleSib}
+	offline := []c15Step{stRestart, stOffline1, stOfflineRe1, stOfflineRe2, stOfflineAll}
 	depth := 4
 	styles := []int{0, 1, 2}
 	alpha := append(append([]c15Step{}, online...), offline...)
@@ -382,6 +407,7 @@ func runC15(args []string) {
 	var samples []string
 	idx := 0
 	complete := true
+	premined := 0
 	var rec func(prefix []c15Step)
 	rec = func(prefix []c15Step) {
 		if !complete {
@@ -400,8 +426,8 @@ func runC15(args []string) {
 					complete = false
 					return
 				}
-				j := c15Job{Style: st, Steps: append([]c15Step{}, prefix...)}
-				j.Text = fmt.Sprintf("style=%d steps=%v", st, j.Steps)
+				j := c15Job{Style: st, Premined: premined, Steps: append([]c15Step{}, prefix...)}
+				j.Text = fmt.Sprintf("style=%d premined=%d steps=%v", st, premined, j.Steps)
 				if os.Getenv("C15_TRACE") != "" {
 					fmt.Fprintln(os.Stderr, "JOB", j.Text)
 				}
@@ -427,22 +453,43 @@ func runC15(args []string) {
 		}
 		for _, s := range alpha {
 			// prune sequences whose step cannot apply (keeps the enumeration exhaustive over applicable sequences)
-			if len(prefix) == 0 && (s == stDisc || s == stDupDisc || s == stExtSpend || s == stExtRemine || s == stStaleSib || s == stOfflineRe1 || s == stOfflineRe2) {
+			if len(prefix) == 0 && premined == 0 && (s == stDisc || s == stDupDisc || s == stExtSpend || s == stExtRemine || s == stStaleSib || s == stOfflineRe1 || s == stOfflineRe2) {
+				continue
+			}
+			if s == stDupOlder {
+				// needs two earlier disconnects
+				nd := 0
+				for _, p := range prefix {
+					if p == stDisc {
+						nd++
+					}
+				}
+				if nd < 2 {
+					continue
+				}
+			}
+			if s == stOfflineAll && len(prefix)+premined < 3 {
 				continue
 			}
 			// at most two offline steps per sequence (each costs a full restart)
 			off := 0
 			for _, p := range prefix {
-				if p == stRestart || p == stOffline1 || p == stOfflineRe1 || p == stOfflineRe2 {
+				if p == stRestart || p == stOffline1 || p == stOfflineRe1 || p == stOfflineRe2 || p == stOfflineAll {
 					off++
 				}
 			}
-			if off >= 2 && (s == stRestart || s == stOffline1 || s == stOfflineRe1 || s == stOfflineRe2) {
+			if off >= 2 && (s == stRestart || s == stOffline1 || s == stOfflineRe1 || s == stOfflineRe2 || s == stOfflineAll) {
 				continue
 			}
 			rec(append(append([]c15Step{}, prefix...), s))
 		}
 	}
+	rec(nil)
+	// second family: two empty blocks exist before the wallet's first synchronisation
+	// (birthday block above genesis; the chain is two blocks high from the start, so
+	// two-deep reorgs and older duplicate disconnects fit into the same depth)
+	premined = 2
+	styles = []int{0}
 	rec(nil)
 	var obsList []string
 	for o := range obsSet {
